@@ -43,6 +43,22 @@ VALIDATORS = [
 ]
 
 
+def check_explicit_entry_params_checked(ctx, rule: str) -> None:
+    """With an explicit run-time entry point, the cycle it belongs to is exempt from the 'exactly one entry satisfied'
+    check only because the entry point's own parameters are checked against the provided values first: a rejection
+    guarded by a test over (parameters of the named entry point, provided) exists in the validator."""
+    db, rep = ctx.db, ctx.rep
+    f = db.func("runners._shared.validation._validate_cycle_entry")
+    epar = next((p_ for p_ in f.param_names if p_ == "entrypoint"), None)
+    if epar is None:
+        raise AnalysisError("_validate_cycle_entry: entrypoint parameter not found")
+    own = {nm for nm, ds in db.local_defs(f).items() if any(f"[{epar}]" in src(getattr(d, "value", None) or ast.Constant("")) for d in ds)}
+    skips = [x for x in walk_local(f.node) if isinstance(x, ast.Continue) and any(isinstance(a, ast.If) and isinstance(a.test, ast.Compare) for a in ancestors(x))]
+    checks = [t for t in walk_local(f.node) if isinstance(t, ast.If) and "provided" in src(t.test) and (any(nm in {z.id for z in ast.walk(t.test) if isinstance(z, ast.Name)} for nm in own) or f"[{epar}]" in src(t.test)) and any(isinstance(z, ast.Raise) for b in t.body for z in ast.walk(b))]
+    ok = bool(checks) or not skips
+    rep.add(rule, f"{f.qname}:explicit-entry-own-params-checked", ok, f.loc(), "the named entry point's own parameters are checked against the provided values before its cycle is exempted" if ok else "the cycle of an explicitly named entry point is skipped ('entry chosen by the caller') but nothing checks that the entry point's own parameters were provided: run(graph, {}, entrypoint='node_a') is accepted, no node ever becomes ready and the run completes with no values — an omitted needed parameter is not rejected")
+
+
 def check_effective_spec_not_memoised(ctx, rule: str) -> None:
     """The specification a run is validated against is the graph's own (``graph.inputs``) or is recomputed for this call
     from this graph's current state: it never comes out of a table that outlives the call (any key short of the full
@@ -301,6 +317,7 @@ def run(ctx) -> None:
     check_scope_recomputation_inputs(ctx, "C08.R9")
     check_validation_read_only(ctx, "C08.R9")
     check_effective_spec_not_memoised(ctx, "C08.R9")
+    check_explicit_entry_params_checked(ctx, "C08.R10")
     # 'no narrowing' (None) is what "**" and an unset select without a graph selection mean — an explicit list of names
     # is a narrowing even when it names every output (nodes no output depends on, with their private inputs, drop out
     # of the scope and of the reported spec): under 'select was given and is not "**"' no return of the resolver is None
